@@ -424,6 +424,15 @@ def design_drift(ctx, design, confirmed_ops):
                 ctx.drift_note(msg)
 
 
+def by_rule(progs):
+    out = {}
+    for r in progs:
+        k = r['f']['op'] if r['f']['args'] else 'leaf:' + r['f']['op']
+        k = k if not k.startswith('leaf:') else 'leaf'
+        out[k] = out.get(k, 0) + 1
+    return dict(sorted(out.items()))
+
+
 def read_export(path):
     if not os.path.exists(path):
         return []
@@ -457,12 +466,21 @@ def validate_events(ctx, events, tag, chunk=1500, max_workers=12):
 
 
 # ----------------------------------------------------------------------------- observations
+_WEIGHTS_CHECKED = set()
+
+
 class Built(object):
     """A program concretised on real ODL objects."""
 
     def __init__(self, sp, f, variant=0, factory=None):
         self.sp, self.f, self.variant = sp, f, variant
         self.space = build_space(sp)
+        key = json.dumps(sp, sort_keys=True)
+        if key not in _WEIGHTS_CHECKED:
+            # the real space carries exactly the weights the specification computes with
+            if not weights_ok(self.space, sp):
+                raise MachineryError('space %r does not have the declared weights %r' % (self.space, sp['W']))
+            _WEIGHTS_CHECKED.add(key)
         self.func = build(f, self.space, sp, variant)
         self.N = sp['m'] * sp['n']
         self.factory = factory(self) if factory else None     # proximal factory function instead of f.proximal
